@@ -392,7 +392,9 @@ LIST_CONTEXTS = ['f(%s)', 'x = f(%s)', 'f(a)(%s)', 'a.b(%s)', 'def f(%s): pass',
                  'class A[%s]: pass', 'match x:\n case [%s]: pass', 'match x:\n case {%s}: pass', 'match x:\n case A(%s): pass',
                  'match %s:\n case _: pass', 'f"{%s}"', "f'{x:{%s}}'", 'if %s: pass', 'while %s: pass', 'x = %s', 'x = *%s',
                  'f(*%s)', 'f(**%s)', 'not %s', 'x if %s else y', 'lambda: %s', 'lambda x=%s: x', 'def f(a=%s): pass',
-                 'def f(a: %s): pass', 'def f() -> %s: pass']
+                 'def f(a: %s): pass', 'def f() -> %s: pass', '(%s for q in z)', '[%s for q in z]', '{%s for q in z}', '{%s: 1 for q in z}',
+                 '[q for q in z if %s]', '(q for q in z for r in %s)', 'f(%s for q in z)', 'x = [%s for q in z]; global q', 'async with %s as w: pass',
+                 'x = %s if a else b', 'x: int = %s', 'x = (yield %s)', 'print(f"{%s!r}")', 'class K(metaclass=%s): pass', 'a[%s:]', 'a[::%s]']
 LIST_ELEMENTS = ['a', 'b', 'a.b', 'a[0]', 'a()', '(a)', '(a, b)', '[a, b]', '*a', '**k', '*a.b', '*(a)', '*a, b', 'a=1', 'b.c=1',
                  '(y)=1', '-a=1', 'lambda: 1=1', 'a := 1', '(a := 1)', 'a: int', 'a: int = 1', 'a if b else c', 'None', 'True',
                  '__debug__', '1', '"s"', 'b"s"', 'f"{a}"', '...', 'a for a in b', 'a async for a in b', 'await a', 'yield',
@@ -401,7 +403,15 @@ LIST_ELEMENTS = ['a', 'b', 'a.b', 'a[0]', 'a()', '(a)', '(a, b)', '[a, b]', '*a'
                  'def', 'class', 'a=', '=1', 'a=*b', 'a=**b', '*', '**', 'a.b=c', 'a[0]=1', 'a()=1', 'x.y as z', 'a = 1', '()',
                  '[]', '{}', '1 + 1', '1 = 1', 'None = 1', 'True := 1', 'a.b := 1', 'a: b = c', '*a: int', '**k: int', 'a=1, b',
                  'self', 'cls', 'T: int', '*Ts', '**P', 'T = int', 'a | b', '_', 'A()', 'a.b()', 'k=v', '"k": v', '**rest',
-                 'lambda: (yield)', 'lambda x: x', 'lambda *, x: x', 'async', 'await', 'print', 'exec', 'nonlocal', 'match', 'case']
+                 'lambda: (yield)', 'lambda x: x', 'lambda *, x: x', 'async', 'await', 'print', 'exec', 'nonlocal', 'match', 'case',
+                 # comprehension nestings (scope and await/async rules differ by the kind of the enclosing comprehension and by version)
+                 '[await a for a in b]', '{await a for a in b}', '{a: await a for a in b}', '(await a for a in b)', '[a async for a in b]',
+                 '{a async for a in b}', '(a async for a in b)', '[a for a in await b]', '[[await a for a in b] for c in d]',
+                 '[a for a in b if await c]', '[(yield) for a in b]', '[a for a in (yield)]', '[a := 1 for a in b]', '[(c := a) for a in b]',
+                 '[a for a in (c := b)]', '[lambda: (yield) for a in b]', '[*a for a in b]', '{**a for a in b}', '[a for a in b for a in c]',
+                 '[a for a, in b]', '[a for *a, in b]', 'f(a for a in b)', 'f(a for a in b, c)', 'f(c, a for a in b)', '(await a)', 'await a()',
+                 '(yield from a)', 'yield from a', 'a[b:=1]', 'a[*b]', 'a[*b, c]', '{*a, *b}', '[*a, *b]', '*a, *b', 'f"{a!r:>{w}}"', "f'{a['k']}'",
+                 'f"{a=}"', 'f"{a:=1}"', "f'{\'a\'}'", 'rf"\\{a}"', '0_1', '1_000', '0o1_7', '1if a else b', 'a if b else c if d else e', 'print >>a, b']
 # postfix expressions on compound atoms and comparisons between them (rules that look at `atom_expr` children, E711/E721 ...)
 _BASES = ['(a)', '(a or b)', '[a, b]', '[1, 2]', '{a: b}', "{'k': 1}", '{a}', '"s"', 'f"{a}"', '"a" "b"', '(a, b)', '()', '[]', 'a', 'type(a)',
           '(f)', '(lambda: 0)', '[x for x in y]', 'None', 'True', '...', '1', 'a.b']
@@ -435,6 +445,25 @@ def version():
     return st.sampled_from(VERSIONS)
 
 
+_vs_pool = None
+
+
+def version_sensitive():
+    """{'text', 'versions': [A, B]}: texts of the list-context product on which parso's own result differs between the adjacent
+    grammar versions A and B, i.e. texts that sit exactly on a version guard (precomputed by tools/mk_version_sensitive.py; a
+    generator input, never an oracle)."""
+    global _vs_pool
+    if _vs_pool is None:
+        import json
+        with open(os.path.join(os.path.dirname(os.path.abspath(__file__)), 'version_sensitive.json'), encoding='utf-8') as fh:
+            by = {}
+            for e in json.load(fh):
+                by.setdefault(tuple(e['versions']), []).append(e)
+            _vs_pool = [by[k] for k in sorted(by)]
+    # the boundary first, then a text on it: every version guard gets the same share however many texts sit on it
+    return st.sampled_from(_vs_pool).flatmap(st.sampled_from)
+
+
 def adversarial_text(max_frags=25, corpus_kinds=('repo',), weights=None, nest_depth=100):
     """The default mix used by most properties."""
     return st.one_of(
@@ -455,6 +484,7 @@ def adversarial_text(max_frags=25, corpus_kinds=('repo',), weights=None, nest_de
         list_context(),
         st.lists(list_context(), min_size=2, max_size=3).map(''.join),
         mutated(snippet(), max_edits=2, weights=weights),
+        version_sensitive().map(lambda e: e['text'] + '\n'),
         st.builds(lambda a, b, nl: a + nl + b, snippet(), snippet(), st.sampled_from(['\n', '\n\n', '; ', '\r\n'])),
     )
 
